@@ -198,7 +198,10 @@ pub fn conc_campaigns(property: &str) -> Vec<ConcCampaign> {
             rule: "the sweep-race programs (threads cycling TTL writes on three shared keys while a clock thread keeps expiring them and the sweeper is delayed inside its pass, expiry shard locked) plus an owner thread, the only writer of four private keys, which gives them a TTL and takes it away again, every write awaited; at quiescence (after one more sweep of every shard) every key whose only writer left it in the cache without a TTL must be held, without an expiry; non-trivial = the sweeper collected keys during the run and >= 2 TTL writes were accepted" },
             ConcCampaign { name: "conc-tight-fit", profile: TightFit, cases_quick: 600, cases_thorough: 8000, nt: |s| s.owner_reincarnations >= 2 && s.swept_during_run && s.threads >= 2,
             rule: "the cache weight equals the combined (fixed) put weights of the whole key universe, so everything always fits; thread 0 works sequentially (each write awaited) on two keys nobody else touches, without TTL, while 1-5 other threads churn the other keys with TTL puts, upserts, deletes and a clock thread drives sweeps, with delays in the weight-accounting critical sections; nothing may be refused for space and the owner must always read its latest acknowledged value; non-trivial = the owner's keys went through >= 2 accepted puts AND the sweeper collected keys during the run" }],
-        "C09" => vec![ConcCampaign { name: "conc-expiry", profile: General, cases_quick: 500, cases_thorough: 6000, nt: |s| s.ttl_writes >= 1 && s.sweeps_during_run && s.read_after_completed_overwrite,
+        "C09" => vec![
+            ConcCampaign { name: "conc-ttl-owner", profile: TtlOwner, cases_quick: 300, cases_thorough: 3000, nt: |s| s.swept_during_run && s.ttl_writes >= 2 && s.threads >= 3,
+            rule: "as conc-ttl-owner of C03: a key whose only writer removed its time-to-live (awaited) must never be collected, whatever the sweeper was doing at that moment; judged at quiescence after one more sweep of every shard" },
+            ConcCampaign { name: "conc-expiry", profile: General, cases_quick: 500, cases_thorough: 6000, nt: |s| s.ttl_writes >= 1 && s.sweeps_during_run && s.read_after_completed_overwrite,
             rule: "generated concurrent programs with TTL writes and a clock thread; history checker: a returned value whose write carried a TTL must not be served once the clock is certainly past the latest possible deadline of that write (clock values bracketed by stamps); non-trivial = an accepted TTL write, a clock thread, and a value-returning read after a completed write" }],
         "C10" => vec![
             ConcCampaign { name: "sched-controlled", profile: Sched, cases_quick: 1500, cases_thorough: 15_000, nt: |s| s.sched_steps >= 15 && s.sched_threads >= 3,
@@ -233,6 +236,8 @@ pub fn conc_campaigns(property: &str) -> Vec<ConcCampaign> {
             rule: "tiny programs (2-3 client threads x 2-7 operations on 1-2 keys, TTLs, clock moves as program steps) under the controlled scheduler: at every schedule point only the highest-priority parked thread (clients, command worker, sweeper, consumer) runs, priorities and priority change points are generated (PCT style), a thread that does not reach its next point within 0.4 ms is taken to be blocked or idle; all history checkers and quiescence invariants; non-trivial = >= 15 scheduling steps over >= 3 threads" },
             ConcCampaign { name: "conc-deadlock", profile: Deadlock, cases_quick: 900, cases_thorough: 10_000, nt: |s| s.threads >= 3 && s.distinct_sites_delayed >= 2 && s.sweeps_during_run,
             rule: "generated concurrent programs with maximal lock sharing (2 shards, queue 1, pool 1, buffer 1, 1-3 keys, up to 12 threads, TTL upserts, evictions, sweeps, get_ref guards held without call-back) and delay injection after lock acquisition sites; a case is blocked when no call returned and no acknowledgement completed for the stall window while the threads consumed no CPU; non-trivial = >= 3 threads, >= 2 distinct sites delayed, clock thread driving sweeps" },
+            ConcCampaign { name: "conc-readers-vs-eviction", profile: ReadersVsEviction, cases_quick: 300, cases_thorough: 4000, nt: |s| s.threads >= 3 && s.eviction_loop_delayed && s.handovers > 0,
+            rule: "a cache exactly full with three hot and two cold keys; 2-4 threads read the hot keys through get_ref / map_get_ref / get_ref guards (the access is recorded while the store guard is held) with pool 1 x buffer 1, a writer puts a stream of fresh cold keys, each evicting an older one, delays injected in the eviction loop, under the weight lock, in the pool and in the consumer: a cycle between worker (eviction), reader (store guard -> pool -> hand-over channel) and consumer (sketch lock) would block the run; non-trivial = >= 3 threads, the eviction loop ran and at least one access buffer was handed over to the consumer" },
             ConcCampaign { name: "conc-evict-vs-sweep", profile: EvictVsSweep, cases_quick: 300, cases_thorough: 4000, nt: |s| s.eviction_loop_delayed && s.swept_during_run,
             rule: "small cache (60-150) full of short-lived TTL keys, heavy puts needing several evictions, the eviction loop delayed 100-800 us per step while a clock thread makes the sweeper collect keys concurrently (worker inside the eviction hook vs. sweeper inside its pass: the two threads that nest the weight lock and the expiry-shard locks); every call must return and every acknowledgement complete; non-trivial = the eviction loop ran AND the sweeper collected at least one key during the run" },
             ConcCampaign { name: "conc-sweep-race", profile: SweepRace, cases_quick: 300, cases_thorough: 3000, nt: |s| s.swept_during_run && s.ttl_writes >= 2 && s.threads >= 2,
